@@ -156,6 +156,16 @@ func (e *Engine) callStatic(st *State, fn *ssa.Function, args []Val, bindings []
 			e.pathEnd()
 		}
 	}
+	if e.Opts.TokenModel {
+		h, ok := tokenSpecs[name]
+		if !ok && fn.Name() == "verifLink" {
+			h, ok = tokenSpecs["verifLink"]
+		}
+		if ok {
+			h(e, st, fn, args, pos, k)
+			return
+		}
+	}
 	if h, ok := libSpecs[name]; ok {
 		e.Assumed["library spec: "+name] = true
 		h(e, st, fn, args, pos, k)
@@ -723,6 +733,20 @@ func (e *Engine) evalClause(c *specCtx, cl Clause) (t *Term) {
 		}
 	}()
 	return c.evalBool(cl.E)
+}
+
+// evalClauseVal evaluates a clause that denotes an integer value (record clauses).
+func (e *Engine) evalClauseVal(c *specCtx, cl Clause) (t *Term) {
+	defer func() {
+		if r := recover(); r != nil {
+			if se, ok := r.(specErr); ok {
+				panic(e.unsupported(fmt.Sprintf("spec error at %s:%d: %s (in %q)", shortFile(cl.File), cl.Line, se.msg, cl.Src)))
+			}
+			panic(r)
+		}
+	}()
+	v, _ := c.eval(cl.E)
+	return v.T[0]
 }
 
 func (e *Engine) evalLocsClause(c *specCtx, cl Clause) (l []Loc) {
